@@ -193,6 +193,8 @@ class Context:
             return VBuiltin(dotted)
         if dotted in BUILTIN_EXC:
             return VBuiltin('exc-class:' + dotted)
+        if ('<ext>', dotted) in self.registry.contracts:
+            return VBuiltin('extcontract:' + dotted)
         if dotted in self.registry.externs:
             return VBuiltin(dotted)
         if dotted == 'sys.version_info':
@@ -373,15 +375,20 @@ class Context:
         contract = self.registry.contracts[('<ext>', q)]
         self.assumed_contracts_used.add(contract.key)
         names = [p for p, _ in contract.params]
-        vals = [self_val] + list(args)
+        vals = ([self_val] if names and names[0] == 'self' else []) + list(args)
+        if not (names and names[0] == 'self') and self_val is not None:
+            vals = [self_val] + list(args)
         if len(vals) > len(names):
             I.require(False, 'call-arity', node, exc='TypeError')
             raise PyExc(VExc('TypeError', origin='arity of ' + q))
         env = dict(zip(names, vals))
         for k, v in kwargs.items():
             env[k] = v
-        for n in names:
-            env.setdefault(n, NONE)
+        dflt = contract.node.args.defaults
+        for i, n in enumerate(names):
+            if n not in env:
+                di = i - (len(names) - len(dflt))
+                env[n] = I.ev(dflt[di], Frame({}, None, sidecar=contract.sidecar)) if di >= 0 else NONE
         pre = I.st.snapshot()
         entry_env = dict(env)
         try:
@@ -891,6 +898,10 @@ class Context:
             if k >= len(evs):
                 raise Unsupported('event_arg: fewer than %d events %s on this path' % (k + 1, name), node)
             return evs[k].args[j]
+        if fn == 'rep':
+            e = I.as_int(I.ev(node.args[0], frame))
+            n = I.as_int(I.ev(node.args[1], frame))
+            return VSeq(S.Rep(e, n), 'list')
         if fn in ('contains_key', 'map_eq', 'map_get'):
             def asmap(v):
                 v = I.unwrap(v)
